@@ -160,11 +160,28 @@ func (s *sim) nextByz(rng *simcore.RNG, roll int) simcore.Op {
 		op["r"] = 0
 	}
 	ids := s.knownBlockIDs(rs.Height)
-	switch k := rng.Intn(10); {
+	if rs.Step == cstypes.RoundStepNewHeight && rs.LastCommit != nil && rng.Bool(0.5) {
+		// a late precommit for the height just decided: it lands in LastCommit, from which the
+		// next proposer builds the commit of its block
+		if maj, ok := rs.LastCommit.TwoThirdsMajority(); ok {
+			op["h"], op["r"], op["t"] = rs.Height-1, int(rs.LastCommit.GetRound()), 2
+			ids = []string{bidStr(maj)}
+		}
+	}
+	switch k := rng.Intn(12); {
 	case k < 2 || len(ids) == 0 && k < 8:
 		op["blk"] = "nil"
 	case k < 9 && len(ids) > 0:
 		op["blk"] = ids[rng.Intn(len(ids))]
+	case k < 11 && len(ids) > 0:
+		// the hash of a known block under another part-set header: a different BlockID
+		bid, _ := parseBid(ids[rng.Intn(len(ids))])
+		if rng.Bool(0.5) {
+			bid.PartSetHeader.Total++
+		} else {
+			bid.PartSetHeader.Hash = tmhash.Sum(bid.PartSetHeader.Hash)
+		}
+		op["blk"] = bidStr(bid)
 	default:
 		hsh := tmhash.Sum([]byte(fmt.Sprint("unseen", rng.Intn(1000))))
 		op["blk"] = fmt.Sprintf("%x/1/%x", hsh, hsh)
@@ -352,6 +369,14 @@ func (s *sim) applyByz(op simcore.Op) bool {
 			}
 		}
 		if vals == nil {
+			for _, n := range s.alive() {
+				if rs := n.cs.GetRoundState(); rs.Height == h+1 && rs.LastValidators != nil {
+					vals = rs.LastValidators
+					break
+				}
+			}
+		}
+		if vals == nil {
 			return false
 		}
 		vi, _ := vals.GetByAddress(b.addr)
@@ -438,12 +463,20 @@ func (s *sim) byzDeliverables(rss map[int]*cstypes.RoundState) []item {
 			}
 		}
 		for _, v := range s.bz.votes {
-			if v.vote.Height != rs.Height || (v.targets != nil && !v.targets[n.idx]) {
-				continue
-			}
 			typ := 1
 			if v.vote.Type == tmproto.PrecommitType {
 				typ = 2
+			}
+			if v.vote.Height == rs.Height-1 && typ == 2 && rs.Step == cstypes.RoundStepNewHeight && rs.LastCommit != nil &&
+				rs.LastCommit.GetRound() == v.vote.Round && (v.targets == nil || v.targets[n.idx]) {
+				// late precommit for the decided height (consensus adds it to LastCommit)
+				if rs.LastCommit.GetByIndex(v.vote.ValidatorIndex) == nil || s.tried["once/"+v.id+fmt.Sprint(n.idx, n.inc)] == "" {
+					add(item{kind: "bvote", from: -1 - v.b, to: n.idx, h: v.vote.Height, r: v.vote.Round, typ: typ, id: v.id})
+				}
+				continue
+			}
+			if v.vote.Height != rs.Height || (v.targets != nil && !v.targets[n.idx]) {
+				continue
 			}
 			if vs := voteSetOf(rs, v.vote.Round, typ); vs != nil && vs.GetByIndex(v.vote.ValidatorIndex) != nil && v.bad == "" {
 				// the node already holds a vote of this validator for that round/type; a conflicting
@@ -467,7 +500,7 @@ func (s *sim) byzDeliver(it item) bool {
 		return false
 	}
 	rs := n.cs.GetRoundState()
-	if rs.Height != it.h {
+	if rs.Height != it.h && !(it.kind == "bvote" && it.typ == 2 && rs.Height == it.h+1 && rs.Step == cstypes.RoundStepNewHeight) {
 		return false
 	}
 	b := -1 - it.from
